@@ -661,6 +661,18 @@ def check_cocl(P, R, tu):
                 if inner is not None and inner.get("k") == "BinaryOperator" and inner.get("op") == "%" and const_of(inner["c"][0]) == 86400 \
                         and _u(inner["c"][1]).get("d") == sd:
                     dayg = x
+            # the same test given a name: a predicate that returns `!(86400 % its parameter)`, called with the divisor
+            if c is not None and c.get("k") == "CallExpr" and len(call_args(c)) == 1 and (_u(call_args(c)[0]) or {}).get("d") == sd:
+                h = tu.func(c.get("callee") or "")
+                if h is not None and getattr(h, "body", None) is not None and len(h.params) == 1:
+                    for r_ in h.walk():
+                        if r_.get("k") == "ReturnStmt" and kids(r_):
+                            e_ = _u(kids(r_)[0])
+                            if e_ is not None and e_.get("k") == "UnaryOperator" and e_.get("op") == "!":
+                                i_ = _u(e_["c"][0])
+                                if i_ is not None and i_.get("k") == "BinaryOperator" and i_.get("op") == "%" and const_of(i_["c"][0]) == 86400 \
+                                        and (_u(i_["c"][1]) or {}).get("d") == h.params[0]["d"]:
+                                    dayg = x
         for gate, what in ((zero, "a zero divisor"), (dayg, "a divisor that does not divide the day (86400 % divisor)")):
             if gate is None:
                 R.finding(rule, fn, "gate: " + what, "%s does not refuse %s before taking the remainder" % (name, what))
